@@ -57,7 +57,33 @@ def _Q(W, c, gamma, n):
     return float(((W - gamma * np.outer(ko, ki) / s) * same).sum() / s)
 
 
+def _sdist(G, x, y, n=None):
+    A = (np.asarray(G) != 0)
+    n = len(A)
+    # shortest walk of length >= 1 from x to y (0 if none): BFS over walk lengths
+    front = set(np.nonzero(A[x])[0].tolist())
+    seen = set()
+    d = 1
+    while front and d <= 2 * n + 2:
+        if y in front:
+            return d
+        seen |= front
+        nxt = set()
+        for u in front:
+            nxt |= set(np.nonzero(A[u])[0].tolist())
+        front = nxt - seen
+        d += 1
+    return 0
+
+
+def _walk(G, x, y, m):
+    A = (np.asarray(G) != 0).astype(int)
+    P = np.linalg.matrix_power(A, int(m)) if m >= 1 else np.eye(len(A), dtype=int)
+    return bool(P[x, y] != 0)
+
+
 SPEC = {
+    'sdist': _sdist, 'walk': _walk,
     'rcnt': lambda M, x, n: int(np.count_nonzero(_mat(M)[x, :n])), 'ccnt': lambda M, y, n: int(np.count_nonzero(_mat(M)[:n, y])),
     'rsum': lambda M, x, n: float(_mat(M)[x, :n].sum()), 'csum': lambda M, y, n: float(_mat(M)[:n, y].sum()),
     'rpos': lambda M, x, n: int((_mat(M)[x, :n] > 0).sum()), 'rneg': lambda M, x, n: int((_mat(M)[x, :n] < 0).sum()),
@@ -80,6 +106,8 @@ def close(a, b):
     if isinstance(a, (bool, np.bool_)) or isinstance(b, (bool, np.bool_)):
         return bool(a) == bool(b)
     try:
+        if math.isinf(float(a)) or math.isinf(float(b)):
+            return float(a) == float(b)
         return bool(np.isclose(float(a), float(b), rtol=1e-9, atol=1e-9))
     except (TypeError, ValueError):
         return a == b
@@ -103,6 +131,8 @@ class Eval:
             return self.e.bound[n.id]
         if n.id in self.e.locs:
             return self.e.locs[n.id]
+        if n.id == 'INF':
+            return float('inf')
         if n.id == 'n0':
             a = next((v for v in self.e.args.values() if isinstance(v, np.ndarray) and v.ndim == 2), None)
             if a is None:
